@@ -671,9 +671,39 @@ func (h *authH) taskGroup() {
 	step(61 * time.Second)
 	step(61 * time.Second)
 	taskHash := []byte("task-hash-T")
-	ok, _ = h.evmAccept(avsT.Eth, xbAvsAddr, h.abis.avs, "createTask", avsT.Eth, "taskT", taskHash, uint64(1), uint64(2), uint64(60), uint64(2))
-	if !must("createTask", ok) {
-		return
+	// createTask: the AVS is otherwise admissible now (voting power > 0, epoch known, operators opted in), so for the
+	// foreign callers the refusing check is the authorization one — and nothing (no task id either) may be consumed
+	vp, _ := c.App.OperatorKeeper.GetAVSUSDValue(c.Ctx, avsT.Eth.String())
+	must("votingPower>0", vp.IsPositive())
+	isOwnerOf := func(avs, who common.Address) bool {
+		info, err := c.App.AVSManagerKeeper.GetAVSInfo(c.Ctx, avs.String())
+		if err != nil || info == nil || info.Info == nil {
+			return false
+		}
+		for _, o := range info.Info.AvsOwnerAddress {
+			if o == sdk.AccAddress(who.Bytes()).String() {
+				return true
+			}
+		}
+		return false
+	}
+	for _, t := range []struct {
+		ident string
+		from  common.Address
+		arg0  common.Address
+	}{
+		{"foreignCaller-ownerArg", stranger.Eth, avsT.Eth},
+		{"taskContract-nonOwnerArg", avsT.Eth, stranger.Eth},
+		{"taskContract-otherOperatorArg", avsT.Eth, otherOp.Eth},
+		{"taskContract-ownerArg", avsT.Eth, avsT.Eth},
+	} {
+		isA, _ := c.App.AVSManagerKeeper.IsAVS(c.Ctx, t.from.String())
+		own := isOwnerOf(t.from, t.arg0)
+		ok, before := h.evmAccept(t.from, xbAvsAddr, h.abis.avs, "createTask", t.arg0, "taskT", taskHash, uint64(1), uint64(2), uint64(60), uint64(2))
+		h.line(authFacts{entry: "manageAVS", a: isA, o: own, sig: "valid", name: "avs.createTask", ident: t.ident, nonOwner: !own}, ok, before, nil)
+		if t.ident == "taskContract-ownerArg" && !must("createTask", ok) {
+			return
+		}
 	}
 	taskID := uint64(1)
 	task, err := c.App.AVSManagerKeeper.GetTaskInfo(c.Ctx, "1", avsT.Eth.String())
